@@ -28,6 +28,13 @@ Proof.
   destruct pv as [a v]. cbn in *. subst v. reflexivity.
 Qed.
 
+(* `!it.any(|x| !valid(x))` is `it.all(valid)` *)
+Lemma negb_any_negb E T s f : negb (any_elems E T s (fun x => negb (f x))) = all_elems E T s f.
+Proof.
+  unfold any_elems, all_elems. induction (elems E T s) as [|x r IH]; cbn; [reflexivity|].
+  rewrite negb_orb, negb_involutive, IH. reflexivity.
+Qed.
+
 Theorem checked_try_cast_slice_char ENV A (B : cty) s :
   wf_ty A -> wf_cty B -> valid_slice A s ->
   checked_outcome (Root.try_cast_slice ENV A (c_bits B) s)
@@ -38,6 +45,7 @@ Proof.
   pose proof (try_cast_slice_char ENV A (c_bits B) s HA HBb Hs) as Hc.
   unfold checked_outcome, Checked.try_cast_slice. rewrite root_try_cast_slice in *.
   destruct (Internal.try_cast_slice ENV A (c_bits B) s) as [[pv|e]|w|u]; cbn [bind]; try reflexivity.
+  rewrite ?negb_any_negb.
   destruct (all_elems ENV (c_bits B) pv (c_valid B)); [|reflexivity].
   cbn in Hc. destruct Hc as [_ (Ha & Hn & Halv & Hav)].
   rewrite (retype_slice (c_bits B) B pv Hsz Hal Halv Hav). reflexivity.
@@ -53,6 +61,7 @@ Proof.
   pose proof (try_cast_slice_mut_char ENV A (c_bits B) s HA HBb Hs) as Hc.
   unfold checked_outcome, Checked.try_cast_slice_mut.
   destruct (Internal.try_cast_slice_mut ENV A (c_bits B) s) as [[pv|e]|w|u]; cbn [bind]; try reflexivity.
+  rewrite ?negb_any_negb.
   destruct (all_elems ENV (c_bits B) pv (c_valid B)); [|reflexivity].
   cbn in Hc. destruct Hc as [_ (Ha & Hn & Halv & Hav)].
   rewrite (retype_slice (c_bits B) B pv Hsz Hal Halv Hav). reflexivity.
